@@ -1,4 +1,124 @@
-import Props.Lemmas
+/-
+  C05 — linker symbols are complete, named as documented, and mutually consistent.
+-/
+import Props.Writer
+import Props.C03
 namespace Slinky.C05
-theorem placeholder : True := trivial
+open Slinky W
+
+theorem sectionLoop_sub (f : Str → R (List Line)) (l : List Str) (r : List Line)
+    (h : sectionLoop f l = .ok r) : ∀ s ∈ l, ∃ rs, f s = .ok rs ∧ ∀ x ∈ rs, x ∈ r := by
+  induction l generalizing r with
+  | nil => intro s hs; simp at hs
+  | cons a as ih =>
+    cases as with
+    | nil =>
+      simp only [sectionLoop] at h
+      intro s hs
+      simp at hs; subst hs
+      exact ⟨r, h, fun x hx => hx⟩
+    | cons b bs =>
+      simp only [sectionLoop] at h
+      split at h
+      · contradiction
+      · rename_i ra hra
+        split at h
+        · contradiction
+        · rename_i rb hrb
+          injection h with h
+          subst h
+          intro s hs
+          rcases List.mem_cons.1 hs with hs | hs
+          · subst hs
+            exact ⟨ra, hra, fun x hx => by simp [hx]⟩
+          · obtain ⟨rs, hfs, hsub⟩ := ih rb hrb s hs
+            exact ⟨rs, hfs, fun x hx => by simp [hsub x hx]⟩
+
+/-- **every configured section gets its three symbols**, with `SIZE = ABSOLUTE(END - START)`:
+for every section of the list an output section is written for, the script defines the
+section's start symbol, end symbol and size symbol (named by the style table). -/
+theorem section_symbols_defined (cx : Ctx) (seg : Segment) (secs : List Str) (noload : Bool) (ls : List Line)
+    (hs : cx.emitSecSyms = true) (h : writeSegment cx seg secs noload = .ok ls) :
+    ∀ sec ∈ secs,
+      linkerSym (cx.d.settings.style.secStart seg.name sec) .dot ∈ ls ∧
+      linkerSym (cx.d.settings.style.secEnd seg.name sec) .dot ∈ ls ∧
+      linkerSym (cx.d.settings.style.secSize seg.name sec)
+        (.absSub (cx.d.settings.style.secEnd seg.name sec) (cx.d.settings.style.secStart seg.name sec)) ∈ ls := by
+  intro sec hsec
+  unfold writeSegment at h
+  split at h
+  · contradiction
+  · rename_i body hbody
+    injection h with h
+    subst h
+    obtain ⟨rs, hrs, hsub⟩ := sectionLoop_sub _ _ _ hbody sec hsec
+    split at hrs
+    · contradiction
+    · rename_i b hb
+      injection hrs with hrs
+      subst hrs
+      have hstart : linkerSym (cx.d.settings.style.secStart seg.name sec) .dot ∈ sectionSymStart cx seg sec := by
+        simp [sectionSymStart, hs]
+      have hend : linkerSym (cx.d.settings.style.secEnd seg.name sec) .dot ∈ sectionSymEnd cx seg sec := by
+        simp [sectionSymEnd, hs, symEndSize]
+      have hsize : linkerSym (cx.d.settings.style.secSize seg.name sec)
+          (.absSub (cx.d.settings.style.secEnd seg.name sec) (cx.d.settings.style.secStart seg.name sec))
+            ∈ sectionSymEnd cx seg sec := by
+        simp [sectionSymEnd, hs, symEndSize]
+      have h1 := hsub _ (List.mem_append_left _ (List.mem_append_left _ hstart))
+      have h2 := hsub _ (List.mem_append_right _ hend)
+      have h3 := hsub _ (List.mem_append_right _ hsize)
+      refine ⟨?_, ?_, ?_⟩ <;> simp [h1, h2, h3]
+
+/-- **the kind symbols** (`<seg>_alloc_*`, `<seg>_noload_*`) around each of the two parts. -/
+theorem kind_symbols_defined (cx : Ctx) (seg : Segment) (secs : List Str) (noload : Bool) (ls : List Line)
+    (hk : cx.emitKindSyms = true) (h : writeSegment cx seg secs noload = .ok ls) :
+    let st := cx.d.settings.style
+    let n := kindName seg noload
+    linkerSym (st.segVramStart n) .dot ∈ ls ∧ linkerSym (st.segVramEnd n) .dot ∈ ls ∧
+    linkerSym (st.segVramSize n) (.absSub (st.segVramEnd n) (st.segVramStart n)) ∈ ls := by
+  obtain ⟨body, hls, _⟩ := writeSegment_shape cx seg secs noload ls h
+  subst hls
+  simp [segmentStart, kindStart, kindEnd, hk, symEndSize]
+
+/-- **the segment symbols**: ROM start/end/size and VRAM start/end/size of every emitted
+segment, each size being `ABSOLUTE(end - start)` of its own family. -/
+theorem segment_symbols_defined (cx : Ctx) (seg : Segment) (cls alloc noload : List Line) :
+    let st := cx.d.settings.style
+    let ls := segmentLines cx seg cls alloc noload
+    linkerSym (st.segRomStart seg.name) (.sym c!"__romPos") ∈ ls ∧
+    linkerSym (st.segRomEnd seg.name) (.sym c!"__romPos") ∈ ls ∧
+    linkerSym (st.segRomSize seg.name) (.absSub (st.segRomEnd seg.name) (st.segRomStart seg.name)) ∈ ls ∧
+    linkerSym (st.segVramStart seg.name) (.addr (c!"." ++ seg.name)) ∈ ls ∧
+    linkerSym (st.segVramEnd seg.name) .dot ∈ ls ∧
+    linkerSym (st.segVramSize seg.name) (.absSub (st.segVramEnd seg.name) (st.segVramStart seg.name)) ∈ ls := by
+  simp [C03.segment_statements]
+
+/-- **known finding (KF-C05-kind-start-before-header).** The kind start symbol is written
+*before* the output-section header: it is assigned the location counter left by whatever
+precedes the segment part, not the start of the part. (Every golden file of the test suite
+has this order; see known_findings.json.) -/
+theorem kind_start_precedes_header (cx : Ctx) (seg : Segment) (noload : Bool) (hk : cx.emitKindSyms = true) :
+    ∃ hdr, segmentStart cx seg noload =
+      [linkerSym (cx.d.settings.style.segVramStart (kindName seg noload)) .dot, .blank, hdr, .blockOpen] := by
+  cases noload
+  · exact ⟨.outHdr (c!"." ++ seg.name) false (segAddr cx seg) (some (cx.d.settings.style.segRomStart seg.name)) seg.subalign,
+      by simp [segmentStart, kindStart, hk]⟩
+  · exact ⟨.outHdr (c!"." ++ seg.name ++ c!".noload") true none none seg.subalign, by simp [segmentStart, kindStart, hk]⟩
+
+/-! ### the naming table (docs/file_format/settings.md, `linker_symbols_style`) on concrete names -/
+
+example : Style.splat.secStart c!"boot" c!".text" = c!"boot_TEXT_START" := by decide
+example : Style.splat.secSize c!"boot" c!".rodata.cst8" = c!"boot_RODATA_CST8_SIZE" := by decide
+example : Style.splat.secEnd c!"main" c!"COMMON" = c!"mainCOMMON_END" := by decide
+example : Style.makerom.secStart c!"boot" c!".rodata" = c!"_bootSegmentRoDataStart" := by decide
+example : Style.makerom.secEnd c!"boot" c!".text" = c!"_bootSegmentTextEnd" := by decide
+example : Style.makerom.secSize c!"boot" c!"mysec" = c!"_bootSegmentMysecSize" := by decide
+example : Style.splat.segVramStart c!"boot" = c!"boot_VRAM" := by decide
+example : Style.makerom.segRomEnd c!"boot" = c!"_bootSegmentRomEnd" := by decide
+example : Style.splat.linkerOffset c!"mark" = c!"mark_OFFSET" := by decide
+example : Style.makerom.classSize c!"ovl" = c!"_ovlVramClassSize" := by decide
+example : Style.splat.segVramStart (kindName { name := c!"boot", files := [], allocSections := [], noloadSections := [] } true)
+    = c!"boot_noload_VRAM" := by decide
+
 end Slinky.C05
